@@ -11,7 +11,9 @@ import (
 	"bytes"
 	"fmt"
 	"io"
+	"os"
 	"os/exec"
+	"regexp"
 	"strings"
 	"sync"
 	"syscall"
@@ -23,20 +25,115 @@ const (
 )
 
 // c14Guard is the tool-failure guard for one whole execution (never an oracle).
-var c14Guard = 120 * time.Second
+var c14Guard = 240 * time.Second
+
+// c14ProbeAfter: when the client has been waiting for one answer for this long AND the filter process is quiet
+// (all threads sleeping, no CPU used, no child process), the goroutine dump is taken early (SIGQUIT).  The dump,
+// not the elapsed time, decides what is reported (see c14ClassifyDump).
+var c14ProbeAfter = 8 * time.Second
 
 type c14Proc struct {
-	cmd     *exec.Cmd
-	in      io.WriteCloser
-	out     *bufio.Reader
-	stderr  *c14Capped
-	timer   *time.Timer
-	mu      sync.Mutex
-	timeout bool
-	waited  bool
-	exit    int
-	werr    error // asynchronous write error of the last request
-	wdone   chan struct{}
+	cmd          *exec.Cmd
+	in           io.WriteCloser
+	out          *bufio.Reader
+	stderr       *c14Capped
+	timer        *time.Timer
+	mu           sync.Mutex
+	timeout      bool
+	waited       bool
+	exit         int
+	werr         error // asynchronous write error of the last request
+	wdone        chan struct{}
+	waitingSince time.Time // non-zero while the client waits for an answer (or for the exit after EOF)
+	stopMon      chan struct{}
+}
+
+// waiting marks the beginning/end of a wait for the filter.
+func (p *c14Proc) waiting(on bool) {
+	p.mu.Lock()
+	if on {
+		p.waitingSince = time.Now()
+	} else {
+		p.waitingSince = time.Time{}
+	}
+	p.mu.Unlock()
+}
+
+// quiet reports whether every thread of the filter sleeps, it consumed no CPU during the last 400 ms and it has no
+// child process (a heuristic for WHEN to take the dump, never a verdict).
+func (p *c14Proc) quiet() bool {
+	pid := p.cmd.Process.Pid
+	snap := func() (cpu uint64, ok bool) {
+		ents, err := os.ReadDir(fmt.Sprintf("/proc/%d/task", pid))
+		if err != nil {
+			return 0, false
+		}
+		for _, en := range ents {
+			b, err := os.ReadFile(fmt.Sprintf("/proc/%d/task/%s/stat", pid, en.Name()))
+			if err != nil {
+				return 0, false
+			}
+			st := string(b)
+			i := strings.LastIndexByte(st, ')')
+			f := strings.Fields(st[i+1:])
+			if len(f) < 13 || f[0] != "S" {
+				return 0, false
+			}
+			var u, sy uint64
+			fmt.Sscan(f[11], &u)
+			fmt.Sscan(f[12], &sy)
+			cpu += u + sy
+			if kids, err := os.ReadFile(fmt.Sprintf("/proc/%d/task/%s/children", pid, en.Name())); err == nil && len(strings.TrimSpace(string(kids))) > 0 {
+				return 0, false
+			}
+		}
+		return cpu, true
+	}
+	a, ok := snap()
+	if !ok {
+		return false
+	}
+	time.Sleep(400 * time.Millisecond)
+	b, ok := snap()
+	return ok && a == b
+}
+
+func (p *c14Proc) fireGuard() {
+	p.mu.Lock()
+	already := p.timeout
+	p.timeout = true
+	p.mu.Unlock()
+	if already {
+		return
+	}
+	pid := p.cmd.Process.Pid
+	// SIGQUIT: the Go runtime of git-lfs dumps all goroutines to stderr and exits; SIGKILL as a backstop
+	syscall.Kill(pid, syscall.SIGQUIT)
+	time.AfterFunc(5*time.Second, func() { syscall.Kill(-pid, syscall.SIGKILL) })
+}
+
+func (p *c14Proc) monitor() {
+	t := time.NewTicker(time.Second)
+	defer t.Stop()
+	for {
+		select {
+		case <-p.stopMon:
+			return
+		case <-t.C:
+			p.mu.Lock()
+			since := p.waitingSince
+			p.mu.Unlock()
+			if !since.IsZero() && time.Since(since) > c14ProbeAfter && p.quiet() {
+				p.mu.Lock()
+				still := p.waitingSince == since
+				p.mu.Unlock()
+				if still {
+					p.fireGuard()
+					return
+				}
+			}
+		}
+	}
 }
 
 type c14Capped struct {
@@ -76,14 +173,9 @@ func c14Start(bin, dir string, env []string, args ...string) (*c14Proc, error) {
 	if err := cmd.Start(); err != nil {
 		return nil, err
 	}
-	p.timer = time.AfterFunc(c14Guard, func() {
-		p.mu.Lock()
-		p.timeout = true
-		p.mu.Unlock()
-		// SIGQUIT first: the Go runtime of git-lfs dumps all goroutines to stderr (diagnosis of a hang), then SIGKILL
-		syscall.Kill(cmd.Process.Pid, syscall.SIGQUIT)
-		time.AfterFunc(5*time.Second, func() { syscall.Kill(-cmd.Process.Pid, syscall.SIGKILL) })
-	})
+	p.timer = time.AfterFunc(c14Guard, p.fireGuard)
+	p.stopMon = make(chan struct{})
+	go p.monitor()
 	return p, nil
 }
 
@@ -113,12 +205,18 @@ func (p *c14Proc) sendWait() {
 
 // finish closes stdin (EOF = "Git is done"), drains stdout and waits for the exit code.
 func (p *c14Proc) finish() (exit int, stray []byte) {
+	if p.waited {
+		return p.exit, nil
+	}
+	p.waiting(true)
 	p.sendWait()
 	p.in.Close()
 	stray, _ = io.ReadAll(io.LimitReader(p.out, 1<<20))
 	io.Copy(io.Discard, p.out)
 	err := p.cmd.Wait()
+	p.waiting(false)
 	p.timer.Stop()
+	close(p.stopMon)
 	p.waited = true
 	if err != nil {
 		if ee, ok := err.(*exec.ExitError); ok {
@@ -446,6 +544,8 @@ func (p *c14Proc) handshake(delay bool) (bad string, died bool) {
 	}
 	c14Text(&b, caps...)
 	p.send(b.Bytes())
+	p.waiting(true)
+	defer p.waiting(false)
 	lines, bad, eof, _ := p.readList()
 	if eof {
 		return "", true
@@ -489,4 +589,127 @@ func c14Clip(s string, n int) string {
 		return s[:n] + "..."
 	}
 	return s
+}
+
+// ---------------------------------------------------------------------------------------------
+// classification of a goroutine dump (SIGQUIT) of the filter: deadlock or not
+
+type c14Goroutine struct {
+	ID     int
+	State  string
+	Frames []string
+}
+
+var c14GoHdr = regexp.MustCompile(`^goroutine (\d+) [^\[]*\[([^\]]+)\]:`)
+
+func c14ParseDump(d string) []c14Goroutine {
+	var gs []c14Goroutine
+	var cur *c14Goroutine
+	for _, l := range strings.Split(d, "\n") {
+		if m := c14GoHdr.FindStringSubmatch(l); m != nil {
+			var id int
+			fmt.Sscan(m[1], &id)
+			st := m[2]
+			if i := strings.Index(st, ","); i >= 0 {
+				st = st[:i] // drop ", N minutes" / ", locked to thread"
+			}
+			gs = append(gs, c14Goroutine{ID: id, State: strings.TrimSpace(st)})
+			cur = &gs[len(gs)-1]
+			continue
+		}
+		if cur == nil || l == "" || strings.HasPrefix(l, "\t") {
+			if l == "" {
+				cur = nil
+			}
+			continue
+		}
+		cur.Frames = append(cur.Frames, l)
+	}
+	return gs
+}
+
+func (g c14Goroutine) has(fn string) bool {
+	for _, f := range g.Frames {
+		if strings.Contains(f, fn) {
+			return true
+		}
+	}
+	return false
+}
+
+var c14ParkedStates = map[string]bool{"chan receive": true, "chan send": true, "chan receive (nil chan)": true, "chan send (nil chan)": true,
+	"select (no cases)": true, "semacquire": true, "sync.Mutex.Lock": true, "sync.RWMutex.Lock": true, "sync.RWMutex.RLock": true,
+	"sync.WaitGroup.Wait": true, "sync.Cond.Wait": true}
+
+var c14SystemStates = map[string]bool{"idle": true, "finalizer wait": true, "force gc (idle)": true, "cleanup wait": true,
+	"timer goroutine (idle)": true, "trace reader (blocked)": true, "GC sweep wait": true, "GC scavenge wait": true, "GC worker (idle)": true,
+	"GC assist wait": true, "GC assist marking": false}
+
+// c14ClassifyDump decides from a goroutine dump whether the filter process is deadlocked: the main goroutine is parked
+// on a channel/sync operation inside the filter loop (not reading stdin) and no other goroutine can ever run again on
+// its own - none running/runnable, none in a syscall or network/file IO wait (except the os/signal receiver), none
+// sleeping, none in a select that is not one of the known timer-less selects of the delay machinery.  Anything else
+// is "not decided" (the execution stays inconclusive).
+func c14ClassifyDump(dump string) (deadlock bool, where, why string) {
+	gs := c14ParseDump(dump)
+	if len(gs) == 0 {
+		return false, "", "no goroutine dump"
+	}
+	var main *c14Goroutine
+	for i := range gs {
+		if gs[i].ID == 1 {
+			main = &gs[i]
+		}
+	}
+	if main == nil {
+		return false, "", "main goroutine not in dump"
+	}
+	if !c14ParkedStates[main.State] && main.State != "select" {
+		return false, "", "main goroutine is in state " + main.State
+	}
+	if main.has("os.(*File).Read") || main.has("internal/poll") || main.has("bufio.(*Reader)") {
+		return false, "", "main goroutine reads stdin"
+	}
+	switch {
+	case main.has("commands.readAvailable"):
+		where = "readAvailable"
+	case main.has("commands.filterCommand"):
+		where = "filterCommand"
+	default:
+		return false, "", "main goroutine is not inside the filter loop"
+	}
+	// An idle pooled HTTP connection (left by an earlier, completed request) is a readLoop goroutine in IO wait plus a
+	// writeLoop goroutine in select.  With no request in flight (no goroutine inside roundTrip/getConn/dial/Client.do)
+	// nothing waits for that connection: whatever the server does with it wakes no goroutine of git-lfs.
+	httpInFlight := false
+	for _, g := range gs {
+		for _, fn := range []string{"net/http.(*persistConn).roundTrip(", "net/http.(*Transport).roundTrip(", "net/http.(*Transport).getConn(",
+			"net/http.(*Transport).dialConn(", "net/http.(*Transport).queueForDial(", "net/http.(*Client).do(", "net.(*Dialer).", "net.(*Resolver)."} {
+			if g.has(fn) {
+				httpInFlight = true
+			}
+		}
+	}
+	for _, g := range gs {
+		if g.ID == 0 || g.ID == 1 {
+			continue
+		}
+		if !httpInFlight && ((g.State == "IO wait" && g.has("net/http.(*persistConn).readLoop")) || (g.State == "select" && g.has("net/http.(*persistConn).writeLoop"))) {
+			continue
+		}
+		if ok, known := c14SystemStates[g.State]; known && ok {
+			continue
+		}
+		if g.has("os/signal.signal_recv") || g.has("os/signal.loop") || g.has("runtime.ensureSigM") {
+			continue
+		}
+		if c14ParkedStates[g.State] {
+			continue
+		}
+		if g.State == "select" && (g.has("commands.infiniteTransferBuffer") || g.has("tq.(*TransferQueue).collectPendingUntil")) {
+			continue
+		}
+		return false, where, fmt.Sprintf("goroutine %d is in state %q", g.ID, g.State)
+	}
+	return true, where, ""
 }
